@@ -1,6 +1,7 @@
 package rules
 
 import (
+	"go/constant"
 	"go/token"
 	"go/types"
 	"sort"
@@ -523,4 +524,239 @@ func elementsWritten(w *core.World, g *ssa.Global) bool {
 		}
 	}
 	return false
+}
+
+// dispatchTable recognises the table form of a switch: call c invokes a function value looked up in a package-level
+// map that only the package initialiser fills (constant string keys, functions or method expressions as values) and
+// nothing ever writes again. It returns the key operand of the lookup and the key -> function table.
+func dispatchTable(w *core.World, c ssa.CallInstruction) (ssa.Value, map[string]*ssa.Function) {
+	cc := c.Common()
+	if cc.IsInvoke() || cc.StaticCallee() != nil {
+		return nil, nil
+	}
+	var lk *ssa.Lookup
+	for _, o := range append(core.Origins(cc.Value), cc.Value) {
+		switch x := o.(type) {
+		case *ssa.Lookup:
+			lk = x
+		case *ssa.Extract:
+			if l, ok := x.Tuple.(*ssa.Lookup); ok && x.Index == 0 {
+				lk = l
+			}
+		}
+	}
+	if lk == nil {
+		return nil, nil
+	}
+	var g *ssa.Global
+	for _, o := range append(core.Origins(lk.X), lk.X) {
+		if u, ok := o.(*ssa.UnOp); ok && u.Op == token.MUL {
+			if gg, ok := u.X.(*ssa.Global); ok {
+				g = gg
+			}
+		}
+	}
+	if g == nil || g.Pkg == nil {
+		return nil, nil
+	}
+	if ok, _ := immutableGlobal(w, g); !ok {
+		return nil, nil
+	}
+	ini := g.Pkg.Func("init")
+	if ini == nil {
+		return nil, nil
+	}
+	var mk ssa.Value
+	for _, b := range ini.Blocks {
+		for _, in := range b.Instrs {
+			if st, ok := in.(*ssa.Store); ok && st.Addr == ssa.Value(g) {
+				if mk != nil {
+					return nil, nil
+				}
+				mk = st.Val
+			}
+		}
+	}
+	if _, ok := mk.(*ssa.MakeMap); !ok {
+		return nil, nil
+	}
+	table := map[string]*ssa.Function{}
+	for _, b := range ini.Blocks {
+		for _, in := range b.Instrs {
+			mu, ok := in.(*ssa.MapUpdate)
+			if !ok || mu.Map != mk {
+				continue
+			}
+			k, isC := constKey(mu.Key)
+			if !isC {
+				return nil, nil
+			}
+			var fn *ssa.Function
+			switch x := mu.Value.(type) {
+			case *ssa.Function:
+				fn = x
+			case *ssa.MakeClosure:
+				fn, _ = x.Fn.(*ssa.Function)
+			case *ssa.ChangeType:
+				fn, _ = x.X.(*ssa.Function)
+			}
+			if fn == nil {
+				return nil, nil
+			}
+			if fn.Synthetic != "" {
+				// thunk of a method expression: the method it forwards to
+				for _, tc := range core.OwnCalls(fn) {
+					if t := tc.Common().StaticCallee(); t != nil {
+						fn = t
+					}
+				}
+			}
+			if _, dup := table[k]; dup {
+				return nil, nil
+			}
+			table[k] = fn
+		}
+	}
+	return lk.Index, table
+}
+
+// constKey renders a constant map key: the string itself, or the exact value of any other constant.
+func constKey(v ssa.Value) (string, bool) {
+	if cv, ok := v.(*ssa.ChangeType); ok {
+		v = cv.X
+	}
+	c, ok := v.(*ssa.Const)
+	if !ok || c.Value == nil {
+		return "", false
+	}
+	if c.Value.Kind() == constant.String {
+		return constant.StringVal(c.Value), true
+	}
+	return c.Value.ExactString(), true
+}
+
+// dispatchedCall is one way a function reaches one of a set of target functions: by a call written out, or through a
+// dispatch table (see dispatchTable), possibly by way of a thin wrapper that only forwards to the target.
+type dispatchedCall struct {
+	Call    ssa.CallInstruction
+	Target  *ssa.Function
+	Args    []ssa.Value   // arguments without the receiver
+	KeyV    ssa.Value     // table form: the key operand of the lookup
+	Key     string        // table form: the constant the target is filed under
+	Wrapper *ssa.Function // table form: the forwarding wrapper, if any
+}
+
+func dispatchedCalls(w *core.World, fn *ssa.Function, targets []*ssa.Function) []dispatchedCall {
+	var out []dispatchedCall
+	isTarget := func(f *ssa.Function) bool {
+		for _, t := range targets {
+			if t == f {
+				return true
+			}
+		}
+		return false
+	}
+	for _, c := range core.Calls(fn) {
+		if sc := c.Common().StaticCallee(); sc != nil {
+			if isTarget(sc) {
+				out = append(out, dispatchedCall{Call: c, Target: sc, Args: core.CallArgs(c)})
+			}
+			continue
+		}
+		keyV, table := dispatchTable(w, c)
+		if table == nil {
+			continue
+		}
+		keys := []string{}
+		for k := range table {
+			keys = append(keys, k)
+		}
+		sort.Strings(keys)
+		for _, k := range keys {
+			f := table[k]
+			args := c.Common().Args
+			if f.Signature.Recv() != nil && len(args) == len(f.Params) && len(args) > 0 {
+				args = args[1:]
+			}
+			if isTarget(f) {
+				out = append(out, dispatchedCall{Call: c, Target: f, Args: args, KeyV: keyV, Key: k})
+				continue
+			}
+			// a thin wrapper: its only repository call is the target and every return hands that call's results on
+			var fwd ssa.CallInstruction
+			n := 0
+			for _, wc := range core.OwnCalls(f) {
+				if isRepoCallee(wc) {
+					n++
+					if sc := wc.Common().StaticCallee(); sc != nil && isTarget(sc) {
+						fwd = wc
+					}
+				}
+			}
+			if fwd != nil && n == 1 {
+				out = append(out, dispatchedCall{Call: c, Target: fwd.Common().StaticCallee(), Args: args, KeyV: keyV, Key: k, Wrapper: f})
+			}
+		}
+	}
+	return out
+}
+
+// storedInputs: what the caller hands to call c that the callee stores into the field fieldKey - the argument
+// itself when the callee stores a parameter, or, when the parameter is a struct passed by value, what the caller put
+// into that field of its local struct. This keeps a rule that is about "the value / the marker given to SetValue"
+// independent of how the callee's parameter list is cut.
+func storedInputs(c ssa.CallInstruction, fieldKey string) []ssa.Value {
+	callee := c.Common().StaticCallee()
+	if callee == nil {
+		return nil
+	}
+	args := c.Common().Args
+	argOf := func(p *ssa.Parameter) ssa.Value {
+		for i, q := range callee.Params {
+			if q == p && i < len(args) {
+				return args[i]
+			}
+		}
+		return nil
+	}
+	var out []ssa.Value
+	for _, st := range core.StoresToField(callee, fieldKey) {
+		if st.Parent() != callee {
+			continue
+		}
+		for _, o := range append(core.Origins(st.Val), st.Val) {
+			switch x := o.(type) {
+			case *ssa.Parameter:
+				if a := argOf(x); a != nil {
+					out = append(out, a)
+				}
+			case *ssa.Field:
+				if p, ok := x.X.(*ssa.Parameter); ok {
+					if a := argOf(p); a != nil {
+						out = append(out, core.LocalFieldStores(a, x.Field)...)
+					}
+				}
+			case *ssa.UnOp:
+				// load of a field of the local copy of a struct parameter
+				fa, ok := x.X.(*ssa.FieldAddr)
+				if !ok {
+					continue
+				}
+				al, ok := fa.X.(*ssa.Alloc)
+				if !ok {
+					continue
+				}
+				for _, ref := range *al.Referrers() {
+					if s2, isStore := ref.(*ssa.Store); isStore && s2.Addr == ssa.Value(al) {
+						if p, isP := s2.Val.(*ssa.Parameter); isP {
+							if a := argOf(p); a != nil {
+								out = append(out, core.LocalFieldStores(a, fa.Field)...)
+							}
+						}
+					}
+				}
+			}
+		}
+	}
+	return out
 }
